@@ -616,7 +616,43 @@ def guardpos_execute(case, stats):
     stats.note(case, True, classes=["marker_before_6138" if case["pos"] < 6138 else "marker_at_or_after_6138"])
 
 
+def artifact_enumerate(tier, shard, nshards):
+    def gen():
+        for prefix in (0, 1, 3, 4, 40, 100, 4093, 8190):
+            for size in (0, 5, 64):
+                yield {"prefix": prefix, "size": size}
+
+    return shard_iter(gen(), shard, nshards)
+
+
+def artifact_execute(case, stats):
+    """An ArtifactKit record (a dword holding its own offset + 16, then size, key, two hint dwords and the masked
+    payload) cut off at every point from its first byte to its last - alone and behind an intact record: the scanner
+    terminates the documented way on each of them."""
+    if "data" in case:
+        run_entries(case["data"], [case["entry"]], stats, what="replay")
+        return
+    import struct
+
+    def record(at, size):
+        key = bytes([0x11, 0x22, 0x33, 0x44])
+        payload = bytes((i * 5 + 1) & 0xFF for i in range(size))
+        return struct.pack("<II", at + 16, size) + key + struct.pack("<II", 0x1000, 0x2000) + bytes(b ^ key[i % 4] for i, b in enumerate(payload))
+
+    pre = bytes((i * 11 + 7) & 0xFF or 1 for i in range(case["prefix"]))
+    first = pre + record(len(pre), case["size"])
+    second = first + b"\xcc" * 9 + record(len(first) + 9, case["size"])
+    n = 0
+    for whole, start in ((first, len(pre)), (second, len(first) + 9)):
+        for cut in range(start, len(whole) + 1):
+            run_entries(whole[:cut], ["artifactkit"], stats, what=f"ArtifactKit record at {start} cut off at {cut} of {len(whole)}")
+            n += 1
+    stats.count("artifact_truncations", n)
+    stats.note(case, True, classes=["prefix_%d" % case["prefix"]])
+
+
 SUBS = [
+    Sub("artifact_truncations", artifact_execute, enumerate=artifact_enumerate, exhaustive=True),
     Sub("guard_marker_positions", guardpos_execute, enumerate=guardpos_enumerate, exhaustive=True),
     Sub("http_start_lines", http_lines_execute, enumerate=http_lines_enumerate, exhaustive=True),
     Sub("field_corruption_sweep", corrupt_execute, enumerate=corrupt_enumerate, exhaustive=True),
